@@ -28,7 +28,9 @@ EXHAUSTIVE = {"quick": True, "thorough": True}
 EXPLANATION = ("quick: ALL sets of 1..2 reactions over the 90 reactions between the 10 complexes of molecularity <= 2 on 3 species (4095); "
                "thorough: ALL sets of 1..3 such reactions (121 575) and ALL sets of 1..2 reactions with coefficients in {0,1,2} over 3 species "
                "up to species permutation (~4.5e4).  Plus seeded random networks <= 6-7 species x 6 reactions, mass-balanced random networks, "
-               "textbook networks with known deficiency (A+B<->C: 0, Edelstein: 1, futile cycles: 1 and 2, Horn-Jackson: 2, ...) and the regression corpus.  "
+               "textbook networks with known deficiency (A+B<->C: 0, Edelstein: 1, futile cycles: 1 and 2, Horn-Jackson: 2, ...), bridged-cycle networks (>= 5 reactions, "
+               "one-way / two-way bridges), networks with 10-13 species and 10-12 reactions (multi-digit names / ids), call histories on ONE analyzer object with the "
+               "hypergraph edited between the analyses (every answer compared with a fresh analyzer), and the regression corpus.  "
                "Theorems (all inputs, closed under the global context): complexes = the distinct reactant/product vectors (NoDup, complete, vectors equal iff "
                "multisets equal), complex-graph arcs, linkage classes = connected components (partition, same class iff undirected path; fuel suffices), weak "
                "reversibility <-> every class strongly connected <-> every arc has a return path, deficiency = n - l - exact (MathComp) rank, "
@@ -42,6 +44,7 @@ TRUSTED_BASE = [
     "the rank-certificate finder (harness/gen/c17_exact.py) is untrusted; only the Coq checker is",
 ]
 ASSUMPTIONS = ["species labels, rule labels and edge ids are printable ASCII strings",
+               "call histories re-analyse through a full route (compute_crn_deficiency, or compute_summary + compute_linkage_deficiencies + run_deficiency_one_algorithm); the staged API keeps derived fields of the previous network when only one stage is re-run (documented in notes/C19.md)",
                "network given as CRNHyperGraph (or its directed hypergraph_to_bipartite export); edge ids unique; sides are dicts with positive integer counts"]
 TESTED_NOT_PROVED = [
     "numpy float ranks (matrix_rank of S and of each class's difference vectors) equal the certified exact ranks (per input)",
@@ -58,7 +61,7 @@ LEVEL_TEXT = ("Machine-checked proof (Coq) about an executable model of Deficien
               "negative (rank S + l <= n proved from S = Y*Ia), and the linkage-class deficiencies never sum to more than it. The model is compared "
               "with the Python code (complex list, arcs, classes, all integers and flags, class deficiencies) on every run over an exhaustive small "
               "scope, random and textbook networks; numpy's float ranks are compared with the certified exact ranks per input.")
-LEVEL_NOTE = ("Universal: all nine model theorems and checker soundness. Per input: float ranks vs certified ranks; networkx component routines vs "
+LEVEL_NOTE = ("Universal: all thirteen model theorems and checker soundness. Per input: float ranks vs certified ranks; networkx component routines vs "
               "the model's closures; regularity and the deficiency-zero/one front ends. Trusted: Coq kernel, MathComp, model + encoders. "
               "networkx/numpy results are compared, not trusted.")
 TECHNIQUE = ("Coq proof about a Gallina model (stdlib lists: walk invariant, lib/Reach saturation; MathComp: rank of Y*Ia, kernel of the incidence "
